@@ -28,8 +28,12 @@ package basestreamleecher
 //@   ghost nstart = old(nstart) + 1
 //@   ensures exists(i, 0, len(candidates), speer == candidates[i])
 //@
+//@ inv BaseLeecher cbset(d):
+//@   d != nil && d.callback.OngoingSession != nil && d.callback.OngoingSessionPeer != nil && d.callback.ShouldTerminateSession != nil &&
+//@   d.callback.TerminateSession != nil && d.callback.SelectSessionPeerCandidates != nil && d.callback.StartSession != nil
+//@
 //@ func (*BaseLeecher).Routine
-//@   requires d != nil
+//@   requires cbset(d)
 //@   modifies ongoing, speer, nstart
 //@   ensures  [terminated] d.Terminated ==> ongoing == old(ongoing) && speer == old(speer) && nstart == old(nstart)
 //@   ensures  [one] old(nstart) <= nstart && nstart <= old(nstart) + 1
@@ -43,13 +47,13 @@ package basestreamleecher
 //@   ensures  result == nil
 //@
 //@ func (*BaseLeecher).UnregisterPeer
-//@   requires d != nil
+//@   requires cbset(d)
 //@   modifies d.Peers[peer], ongoing, speer, nstart
 //@   ensures  [gone] !has(d.Peers, peer)
 //@   ensures  [nosession] !(ongoing && speer == peer)
 //@   ensures  result == nil
 //@
 //@ func (*BaseLeecher).Terminate
-//@   requires d != nil
+//@   requires cbset(d)
 //@   modifies d.Terminated, ongoing
 //@   ensures  d.Terminated && !ongoing
